@@ -119,7 +119,7 @@ func APICase(front string, n int, strict bool, cons []M, hasObj bool, obj M, cfg
 		obj = NoObj()
 	}
 	return M{"drv": "api", "front": front, "n": n, "strict": strict, "cons": cons, "hasObj": hasObj, "obj": obj,
-		"objNilW": false, "cfg": cfg, "ev": ev}
+		"objNilW": false, "wbStrict": false, "cfg": cfg, "ev": ev}
 }
 
 func Op(op string) M { return M{"op": op} }
